@@ -47,6 +47,11 @@ pub struct Searcher {
     pub verif_deeper_hits: std::cell::Cell<u64>,
     #[cfg(flounder_verif)]
     pub verif_same_depth_hits: std::cell::Cell<u64>,
+    /// The move list chosen by the first quiescence node after `verif_record_qmoves` was set.
+    #[cfg(flounder_verif)]
+    pub verif_record_qmoves: bool,
+    #[cfg(flounder_verif)]
+    pub verif_last_qmoves: Option<Vec<Move>>,
 }
 
 impl Searcher {
@@ -65,6 +70,10 @@ impl Searcher {
             verif_deeper_hits: std::cell::Cell::new(0),
             #[cfg(flounder_verif)]
             verif_same_depth_hits: std::cell::Cell::new(0),
+            #[cfg(flounder_verif)]
+            verif_record_qmoves: false,
+            #[cfg(flounder_verif)]
+            verif_last_qmoves: None,
         }
     }
 
@@ -241,6 +250,11 @@ impl Searcher {
         } else {
             self.move_generator.generate_quiescence_moves(board)
         };
+
+        #[cfg(flounder_verif)]
+        if self.verif_record_qmoves && self.verif_last_qmoves.is_none() {
+            self.verif_last_qmoves = Some(moves.clone());
+        }
 
         self.order_captures(&mut moves, board);
 
@@ -492,7 +506,21 @@ impl Searcher {
 
     /// The quiescence value of a position with the full window.
     pub fn verif_quiescence(&mut self, board: &Board, alpha: i32, beta: i32) -> i32 {
+        self.timer.start(None);
         self.search_until_quiet(board, alpha, beta)
+    }
+
+    /// The moves the quiescence search examines in `board` (recorded inside `search_until_quiet`).
+    pub fn verif_quiescence_move_set(&mut self, board: &Board) -> Vec<Move> {
+        let saved = self.timer.verif_node_limit;
+        self.timer.verif_node_limit = Some(1);
+        self.verif_record_qmoves = true;
+        self.verif_last_qmoves = None;
+        self.timer.start(None);
+        self.search_until_quiet(board, NEGATIVE_INFINITY, INFINITY);
+        self.verif_record_qmoves = false;
+        self.timer.verif_node_limit = saved;
+        self.verif_last_qmoves.take().unwrap_or_default()
     }
 
     /// The move ordering the search would use (for the permutation property).
